@@ -359,6 +359,9 @@ func (st *State) doReturn(fr *Frame, res []Val, pos token.Pos) bool {
 		st.checkPost(fr, res, pos)
 		return false
 	}
+	if fr.rangeRet != nil {
+		return st.rangeReturn(fr, res)
+	}
 	caller := st.top()
 	if fr.isDefer {
 		return true // caller resumes at its rundefers instruction
